@@ -9,7 +9,7 @@ dst = f"/verif/seeded/{sid}"
 os.makedirs(dst, exist_ok=True)
 for f in glob.glob(src + "/*"):
     b = os.path.basename(f)
-    if b.endswith(".log") or os.path.getsize(f) > 200_000:
+    if os.path.isdir(f) or b.endswith(".log") or os.path.getsize(f) > 200_000:
         continue
     shutil.copy(f, dst)
 conf = open(f"/tmp/confirm-{sid}.log").read() if os.path.exists(f"/tmp/confirm-{sid}.log") else ""
